@@ -3,7 +3,7 @@
    coded: 64-bit wraps, per-packet floor) and Model/QosMgr.v (pkg/qos/manager.go SetSubscriberQoS);
    the executable property monitor is Model/TcQosSpec.v. *)
 From Coq Require Import NArith List.
-From Verif Require Import Base.Word Base.Check Model.TcQos Model.QosMgr Model.TcQosSpec Proofs.TcQosProofs.
+From Verif Require Import Base.Word Base.Check Model.TcQos Model.QosMgr Model.TcQosSpec Proofs.TcQosProofs Proofs.TcQosE2E.
 Import ListNotations.
 Local Open Scope N_scope.
 
@@ -110,12 +110,156 @@ Theorem C19_policy_redefinition_applied : forall s n ip d1 u1 b1 p1 d2 u2 b2 p2,
 Proof. exact policy_redefinition_applied. Qed.
 Print Assumptions C19_policy_redefinition_applied.
 
-Theorem C19_policy_via_plan_enforced_partial : forall s n ip down up pr,
-  n <> [] -> palindromic ip -> down < 34359738368 -> up < 34359738368 -> pr < 256 ->
-  let s' := after_ops s [PolAdd n down up 0 pr; ApplyPol ip n] in
+(* ---- the policy table over ALL histories — FULL.  [plan_after n ops cur] tells, without the table, what the
+   name n is bound to after the history ops: the last AddPolicy of that (non-empty) name, nothing after a
+   RemovePolicy, the built-in value after LoadDefaultPolicies for built-in names; every other op (packets,
+   SetSubscriberQoS, snapshots, GetPolicy, other names) leaves it alone.  For every history, every prior
+   table and every name the table agrees with it ... *)
+Theorem C19_policy_table_last_definition_wins : forall ops s n,
+  p_get (pols (after_ops s ops)) n = plan_after n ops (p_get (pols s) n).
+Proof. exact policy_table_last_definition_wins. Qed.
+Print Assumptions C19_policy_table_last_definition_wins.
+
+(* ... and that binding is what GetPolicy returns and what SetSubscriberPolicy writes (an unbound name is
+   refused and nothing is written) *)
+Theorem C19_policy_plan_in_force : forall ops s n ip,
+  let s' := after_ops s ops in
+  match plan_after n ops (p_get (pols s) n) with
+  | Some (d, u, b, p) => step s' (PolGet n) = (s', OPol (Some (d, u, b, p)), []) /\
+                         step s' (ApplyPol ip n) = step s' (SetQoS true ip d u b p)
+  | None => step s' (PolGet n) = (s', OPol None, []) /\ step s' (ApplyPol ip n) = (s', OErr, [])
+  end.
+Proof. exact policy_plan_in_force. Qed.
+Print Assumptions C19_policy_plan_in_force.
+
+Example C19_plan_history_nontrivial :
+  let guest := [103;117;101;115;116] in
+  plan_after guest [PolAdd guest 1000 1000 1500 0; PolLoadDefaults; PolAdd guest 80000000 20000000 0 3;
+                    PolRemove [1]; Sub Egress [10;1;1;10] 100 5] None = Some (80000000, 20000000, 0, 3) /\
+  plan_after guest [PolAdd guest 1000 1000 1500 0; PolLoadDefaults] None = Some (10000000, 5000000, 500000, 2) /\
+  plan_after guest [PolLoadDefaults; PolRemove guest] None = None.
+Proof. exact plan_guard_satisfiable. Qed.
+
+(* enforcement through a named plan, for EVERY history that leaves the plan bound to these values (first
+   definition, re-definition, operator override of a built-in, built-in loaded over an operator plan ...),
+   under the same guard as for SetSubscriberQoS *)
+Theorem C19_policy_via_plan_enforced_partial : forall ops s n ip down up pr,
+  plan_after n ops (p_get (pols s) n) = Some (down, up, 0, pr) ->
+  palindromic ip -> down < 34359738368 -> up < 34359738368 -> pr < 256 ->
+  let s' := after_ops s (ops ++ [ApplyPol ip n]) in
   enforced s' Egress ip down (contract_burst down 0) /\ enforced s' Ingress ip up (contract_burst up 0).
-Proof. exact policy_via_plan_enforced_partial. Qed.
+Proof. exact policy_via_plan_enforced_partial_gen. Qed.
 Print Assumptions C19_policy_via_plan_enforced_partial.
+
+(* the egress direction alone under a weaker guard: any rate below 2^64, any explicit burst below 2^32 (the
+   default burst still needs the rate below 2^35); what remains is the key byte order *)
+Theorem C19_policy_enforced_egress_partial : forall s viap ip down up b pr,
+  palindromic ip -> down < W64 -> b < W32 -> pr < 256 -> (b = 0 -> down < 34359738368) ->
+  let s' := fst (fst (step s (SetQoS viap ip down up b pr))) in
+  enforced s' Egress ip down (contract_burst down b).
+Proof. exact policy_enforced_egress_partial. Qed.
+Print Assumptions C19_policy_enforced_egress_partial.
+
+(* ---- rate 0 set through the control plane is unlimited at the data path (guard: key byte order only).
+   Every packet length, clock value and incoming priority; the map is left unchanged, so it holds for every
+   sequence of packets.  Directly, and through a plan that any history left bound to rate 0 (a limited plan
+   re-defined to unlimited and re-applied, the built-in "unlimited") *)
+Theorem C19_rate_zero_set_unlimited : forall s viap ip up b pr plen now pin,
+  palindromic ip -> b < W32 -> pr < 256 ->
+  let s' := fst (fst (step s (SetQoS viap ip 0 up b pr))) in
+  exists p, qos_prog Egress (eg s') (sub_frame Egress ip) plen now pin = (eg s', VRet TC_ACT_OK p, []).
+Proof. exact rate_zero_set_unlimited. Qed.
+Print Assumptions C19_rate_zero_set_unlimited.
+
+Theorem C19_rate_zero_set_unlimited_ingress : forall s viap ip down b pr plen now pin,
+  palindromic ip -> pr < 256 ->
+  let s' := fst (fst (step s (SetQoS viap ip down 0 b pr))) in
+  exists p, qos_prog Ingress (ing s') (sub_frame Ingress ip) plen now pin = (ing s', VRet TC_ACT_OK p, []).
+Proof. exact rate_zero_set_unlimited_ingress. Qed.
+Print Assumptions C19_rate_zero_set_unlimited_ingress.
+
+Theorem C19_rate_zero_via_plan_unlimited : forall ops s n ip up b pr plen now pin,
+  plan_after n ops (p_get (pols s) n) = Some (0, up, b, pr) ->
+  palindromic ip -> b < W32 -> pr < 256 ->
+  let s' := after_ops s (ops ++ [ApplyPol ip n]) in
+  exists p, qos_prog Egress (eg s') (sub_frame Egress ip) plen now pin = (eg s', VRet TC_ACT_OK p, []).
+Proof. exact rate_zero_via_plan_unlimited. Qed.
+Print Assumptions C19_rate_zero_via_plan_unlimited.
+
+(* ---- clause 0 at the level of the whole TC program — FULL.  [prog_run] threads the map through successive
+   runs of the program (parse, lookup, token_bucket_check, write-back of tokens/last_update into the 32-byte
+   value) on one frame; for every map, direction, frame that hits a bucket with tokens <= burst and rate > 0,
+   every history and window of every arrival sequence (non-decreasing 64-bit clock, 32-bit skb->len) *)
+Theorem C19_prog_upper_bound : forall d m f key v t pre now len rest,
+  qos_lookup d m f = LHit key v t -> wf t -> rate t <> 0 ->
+  mono (last t) (pre ++ (now, len) :: rest) -> lens32 (pre ++ (now, len) :: rest) ->
+  prog_admitted_after d m f pre ((now, len) :: rest) <= burst t + (last_time now rest - now) * (rate t / 8) / G.
+Proof. exact prog_upper_bound. Qed.
+Print Assumptions C19_prog_upper_bound.
+
+(* ---- end to end: the contract set through the control plane bounds what the data path admits.  Download:
+   any rate 1 .. 2^64-1, any explicit burst below 2^32 (default burst: rate below 2^35), from ANY prior state;
+   guard = the key byte order (K19a).  Upload: default burst only (K19b).  Through a plan: for every
+   control-plane history that leaves the plan bound to these values. *)
+Theorem C19_policy_upper_bound_end_to_end : forall s viap ip down up b pr pre now len rest,
+  palindromic ip -> down <> 0 -> down < W64 -> b < W32 -> pr < 256 -> (b = 0 -> down < 34359738368) ->
+  mono 0 (pre ++ (now, len) :: rest) -> lens32 (pre ++ (now, len) :: rest) ->
+  let s' := fst (fst (step s (SetQoS viap ip down up b pr))) in
+  prog_admitted_after Egress (eg s') (sub_frame Egress ip) pre ((now, len) :: rest)
+    <= contract_burst down b + (last_time now rest - now) * (down / 8) / G.
+Proof. exact policy_upper_bound_end_to_end. Qed.
+Print Assumptions C19_policy_upper_bound_end_to_end.
+
+Theorem C19_policy_upper_bound_end_to_end_ingress : forall s viap ip down up pr pre now len rest,
+  palindromic ip -> up <> 0 -> up < 34359738368 -> pr < 256 ->
+  mono 0 (pre ++ (now, len) :: rest) -> lens32 (pre ++ (now, len) :: rest) ->
+  let s' := fst (fst (step s (SetQoS viap ip down up 0 pr))) in
+  prog_admitted_after Ingress (ing s') (sub_frame Ingress ip) pre ((now, len) :: rest)
+    <= contract_burst up 0 + (last_time now rest - now) * (up / 8) / G.
+Proof. exact policy_upper_bound_end_to_end_ingress. Qed.
+Print Assumptions C19_policy_upper_bound_end_to_end_ingress.
+
+Theorem C19_plan_upper_bound_end_to_end : forall ops s n ip down up b pr pre now len rest,
+  plan_after n ops (p_get (pols s) n) = Some (down, up, b, pr) ->
+  palindromic ip -> down <> 0 -> down < W64 -> b < W32 -> pr < 256 -> (b = 0 -> down < 34359738368) ->
+  mono 0 (pre ++ (now, len) :: rest) -> lens32 (pre ++ (now, len) :: rest) ->
+  let s' := after_ops s (ops ++ [ApplyPol ip n]) in
+  prog_admitted_after Egress (eg s') (sub_frame Egress ip) pre ((now, len) :: rest)
+    <= contract_burst down b + (last_time now rest - now) * (down / 8) / G.
+Proof. exact plan_upper_bound_end_to_end. Qed.
+Print Assumptions C19_plan_upper_bound_end_to_end.
+
+(* a plan re-defined from 200 Mbit/s to 8 kbit/s, burst 3000, and re-applied: of five 1500-byte packets the
+   program admits three (two from the burst, one after 2 s) *)
+Example C19_end_to_end_nontrivial :
+  let s' := after_ops init [PolAdd [103] 200000000 50000000 0 4; ApplyPol [10; 1; 1; 10] [103];
+                            PolAdd [103] 8000 8000 3000 4; ApplyPol [10; 1; 1; 10] [103]] in
+  let pks := [(1000, 1500); (1000, 1500); (1000, 1500); (2000000000, 1500); (2000000001, 1500)] in
+  mono 0 pks /\ lens32 pks /\ prog_run Egress (eg s') (sub_frame Egress [10; 1; 1; 10]) pks =
+  ([([10; 1; 1; 10], tb_encode {| tokens := 499; last := 2000000001; rate := 8000; burst := 3000; prio := 4 |})], 4500).
+Proof. exact end_to_end_nontrivial. Qed.
+
+(* ---- the monitor accepts the Model on the control plane — FULL: on every history without packet runs
+   (AddPolicy / RemovePolicy / GetPolicy / LoadDefaultPolicies / ListPolicies / SetSubscriberPolicy /
+   SetSubscriberQoS / RemoveSubscriberQoS / raw writes / snapshots), from every state with the monitor's
+   table equal to the Model's, no clause fires on the Model's own outputs *)
+Theorem C19_monitor_accepts_model_control_plane : forall ops s ss i,
+  s_p ss = pols s -> forallb ctl_op ops = true ->
+  accept_trace accept i ss (model_io_from s ops) = (0, 0).
+Proof. exact monitor_accepts_model_control_plane. Qed.
+Print Assumptions C19_monitor_accepts_model_control_plane.
+
+Example C19_control_plane_history_nontrivial :
+  let guest := [103;117;101;115;116] in
+  let ops := [PolLoadDefaults; PolGet guest; PolAdd guest 80000000 20000000 0 3; PolGet guest; ApplyPol [10;1;1;10] guest;
+              PolAdd [] 1 1 1 1; PolRemove guest; ApplyPol [10;1;1;10] guest; PolGet guest; PolList; Snap Egress] in
+  forallb ctl_op ops = true /\
+  map snd (model_io_from init ops) =
+    [OUnit; OPol (Some (10000000, 5000000, 500000, 2)); OUnit; OPol (Some (80000000, 20000000, 0, 3)); OUnit;
+     OErr; OUnit; OErr; OPol None;
+     ONames (map fst (p_del (fold_left (fun t x => p_put t (fst x) (snd x)) default_policies []) guest));
+     OSnap [([10;1;1;10], full_bucket 80000000 10000000 3)]].
+Proof. exact control_plane_history_nontrivial. Qed.
 
 Example C19_policy_guard_satisfiable : palindromic [10; 1; 1; 10] /\ contract_burst 50000000 0 = 6250000.
 Proof. split; [exists 10, 1; repeat split; reflexivity|reflexivity]. Qed.
